@@ -1,15 +1,1188 @@
-//! C16 (stub, to be filled in)
-use crate::prng::Rng;
+//! C16 - result archives reload to the sets that were written.
+//!
+//! History explored: Save (build_result_archive) / crash inside Save / damage to the stored
+//! bytes / Restart + Load (load_bdd_bundle on a graph rebuilt from the archived model) / use of the
+//! loaded sets as wild-card context - with an I/O fault plan per operation (short transfers, EINTR,
+//! EIO on the j-th write/read/seek/close, ENOSPC/EFBIG after N bytes, open errors, process kill
+//! inside the j-th write). In `Sweep*` operations the fault position is *enumerated* over every
+//! write/read call, every byte limit, every truncation point and every bit (thorough tier) of the
+//! archive of the sampled workload.
+//!
+//! Oracles ("acknowledged => correct", "never wrong data", bounded liveness):
+//!  1. a Save that returns Ok - under any fault plan - leaves an archive that holds exactly the
+//!     entries {label.bdd} + {model.aeon, formulae.txt}, whose formulae.txt is the formula list
+//!     line by line, whose model rebuilds a symbolic context with the same variables in the same
+//!     order, and which reloads to the same labels with equal sets;
+//!  2. a Save may only fail if a fault was actually injected into it;
+//!  3. a Load on an acknowledged, undamaged archive without faults returns exactly what was written;
+//!     a Load that returns Ok under faults / on a torn archive never returns a set that differs
+//!     from the one written under that label;
+//!  4. loaded sets used as wild-card context give the same result as the in-memory sets;
+//!  5. the first fault-free Save + Load after any faulty history meets 1 and 3 in full.
+
+use crate::ast::F;
+use crate::evalx::{self, Gcv};
+use crate::exec::{Outcome, isolated};
+use crate::prng::{Rng, fnv1a};
 use crate::scen::Report;
+use crate::simenv;
 use crate::world::World;
+use biodivine_hctl_model_checker::evaluation::algorithm::{compute_steady_states, eval_node};
+use biodivine_hctl_model_checker::evaluation::eval_context::EvalContext;
+use biodivine_hctl_model_checker::generate_output::build_result_archive;
+use biodivine_hctl_model_checker::load_inputs::load_bdd_bundle;
+use biodivine_hctl_model_checker::mc_utils::get_extended_symbolic_graph;
+use biodivine_hctl_model_checker::model_checking as mc;
+use biodivine_hctl_model_checker::preprocessing::parser::parse_hctl_formula;
+use biodivine_lib_param_bn::BooleanNetwork;
+use biodivine_lib_param_bn::biodivine_std::traits::Set;
+use biodivine_lib_param_bn::symbolic_async_graph::{GraphColoredVertices, SymbolicAsyncGraph};
 use serde_json::{Value, json};
+use std::collections::{BTreeMap, HashMap};
+use std::io::Read;
 
 #[derive(Clone, Debug, PartialEq)]
-pub struct C16 {}
-impl C16 {
-    pub fn to_json(&self) -> Value { json!({}) }
-    pub fn from_json(_v: &Value) -> Result<C16, String> { Ok(C16 {}) }
+pub enum SetSpec {
+    Empty,
+    Unit,
+    /// random DNF over state and parameter variables, intersected with the unit set
+    Dnf(u64),
+    /// raw result of a closed plain formula
+    ResultOf(F),
+    /// raw set that depends on spare variables: `eval_node` on an *open* formula over {x}
+    Open(F),
 }
-pub fn generate(_rng: &Rng, _world: &World, _tier: &str) -> C16 { C16 {} }
-pub fn check(_world: &World, _sc: &C16, _sandbox: &str) -> Report { Report::default() }
-pub fn shrinks(_sc: &C16) -> Vec<C16> { Vec::new() }
+
+#[derive(Clone, Debug, PartialEq)]
+pub enum Pre {
+    Absent,
+    Torn,
+    LargerValid,
+    Directory,
+}
+
+#[derive(Clone, Debug, PartialEq)]
+pub enum Op {
+    Save { plan: String, pre: Pre, hash_seed: u64 },
+    CrashSave { kill_w: u64, let_through: u64, pre: Pre, hash_seed: u64 },
+    Truncate { keep: u64 },
+    Flip { bit: u64 },
+    Load { plan: String, hash_seed: u64 },
+    Use { formula: F },
+    SweepSave { kind: String, stride: u64 },
+    SweepLoad { kind: String, stride: u64 },
+    SweepDamage { kind: String, stride: u64 },
+}
+
+#[derive(Clone, Debug, PartialEq)]
+pub struct C16 {
+    pub format: String,
+    pub sets: Vec<(String, SetSpec)>,
+    pub formulae: Vec<String>,
+    /// labels are the CLI's `formula-i` and set i is the raw result of formula line i
+    pub cli_form: bool,
+    pub nested_path: bool,
+    pub ops: Vec<Op>,
+}
+
+fn pre_name(p: &Pre) -> &'static str {
+    match p {
+        Pre::Absent => "absent",
+        Pre::Torn => "torn",
+        Pre::LargerValid => "larger_valid",
+        Pre::Directory => "directory",
+    }
+}
+fn pre_from(s: &str) -> Pre {
+    match s {
+        "torn" => Pre::Torn,
+        "larger_valid" => Pre::LargerValid,
+        "directory" => Pre::Directory,
+        _ => Pre::Absent,
+    }
+}
+
+impl SetSpec {
+    fn to_json(&self) -> Value {
+        match self {
+            SetSpec::Empty => json!("empty"),
+            SetSpec::Unit => json!("unit"),
+            SetSpec::Dnf(s) => json!({"dnf_seed": s}),
+            SetSpec::ResultOf(f) => json!({"result_of": f.to_json(), "text": f.render()}),
+            SetSpec::Open(f) => json!({"open": f.to_json(), "text": f.render()}),
+        }
+    }
+    fn from_json(v: &Value) -> Result<SetSpec, String> {
+        if let Some(s) = v.as_str() {
+            return Ok(if s == "unit" { SetSpec::Unit } else { SetSpec::Empty });
+        }
+        if let Some(s) = v.get("dnf_seed").and_then(|s| s.as_u64()) {
+            return Ok(SetSpec::Dnf(s));
+        }
+        if let Some(f) = v.get("result_of") {
+            return Ok(SetSpec::ResultOf(F::from_json(f)?));
+        }
+        if let Some(f) = v.get("open") {
+            return Ok(SetSpec::Open(F::from_json(f)?));
+        }
+        Err("set spec".to_string())
+    }
+}
+
+impl Op {
+    fn to_json(&self) -> Value {
+        match self {
+            Op::Save { plan, pre, hash_seed } => json!({"op": "save", "plan": plan, "pre": pre_name(pre), "hash_seed": hash_seed}),
+            Op::CrashSave { kill_w, let_through, pre, hash_seed } => {
+                json!({"op": "crash_save", "kill_w": kill_w, "let_through": let_through, "pre": pre_name(pre), "hash_seed": hash_seed})
+            }
+            Op::Truncate { keep } => json!({"op": "truncate", "keep": keep}),
+            Op::Flip { bit } => json!({"op": "flip", "bit": bit}),
+            Op::Load { plan, hash_seed } => json!({"op": "load", "plan": plan, "hash_seed": hash_seed}),
+            Op::Use { formula } => json!({"op": "use", "formula": formula.to_json(), "text": formula.render()}),
+            Op::SweepSave { kind, stride } => json!({"op": "sweep_save", "kind": kind, "stride": stride}),
+            Op::SweepLoad { kind, stride } => json!({"op": "sweep_load", "kind": kind, "stride": stride}),
+            Op::SweepDamage { kind, stride } => json!({"op": "sweep_damage", "kind": kind, "stride": stride}),
+        }
+    }
+    fn from_json(v: &Value) -> Result<Op, String> {
+        let u = |k: &str| v[k].as_u64().unwrap_or(0);
+        let s = |k: &str| v[k].as_str().unwrap_or("").to_string();
+        Ok(match v["op"].as_str().ok_or("op")? {
+            "save" => Op::Save { plan: s("plan"), pre: pre_from(&s("pre")), hash_seed: u("hash_seed") },
+            "crash_save" => Op::CrashSave { kill_w: u("kill_w"), let_through: u("let_through"), pre: pre_from(&s("pre")), hash_seed: u("hash_seed") },
+            "truncate" => Op::Truncate { keep: u("keep") },
+            "flip" => Op::Flip { bit: u("bit") },
+            "load" => Op::Load { plan: s("plan"), hash_seed: u("hash_seed") },
+            "use" => Op::Use { formula: F::from_json(&v["formula"])? },
+            "sweep_save" => Op::SweepSave { kind: s("kind"), stride: u("stride").max(1) },
+            "sweep_load" => Op::SweepLoad { kind: s("kind"), stride: u("stride").max(1) },
+            "sweep_damage" => Op::SweepDamage { kind: s("kind"), stride: u("stride").max(1) },
+            o => return Err(format!("unknown op {o}")),
+        })
+    }
+}
+
+impl C16 {
+    pub fn to_json(&self) -> Value {
+        json!({
+            "format": self.format,
+            "sets": self.sets.iter().map(|(l, s)| json!([l, s.to_json()])).collect::<Vec<_>>(),
+            "formulae": self.formulae,
+            "cli_form": self.cli_form,
+            "nested_path": self.nested_path,
+            "ops": self.ops.iter().map(|o| o.to_json()).collect::<Vec<_>>(),
+        })
+    }
+    pub fn from_json(v: &Value) -> Result<C16, String> {
+        let mut sets = Vec::new();
+        for x in v["sets"].as_array().ok_or("sets")? {
+            sets.push((x[0].as_str().ok_or("label")?.to_string(), SetSpec::from_json(&x[1])?));
+        }
+        let mut ops = Vec::new();
+        for x in v["ops"].as_array().ok_or("ops")? {
+            ops.push(Op::from_json(x)?);
+        }
+        Ok(C16 {
+            format: v["format"].as_str().unwrap_or("aeon").to_string(),
+            sets,
+            formulae: v["formulae"].as_array().map(|a| a.iter().map(|s| s.as_str().unwrap_or("").to_string()).collect()).unwrap_or_default(),
+            cli_form: v["cli_form"].as_bool().unwrap_or(false),
+            nested_path: v["nested_path"].as_bool().unwrap_or(false),
+            ops,
+        })
+    }
+}
+
+const LABELS: [&str; 10] = ["a", "res_1", "X", "p0", "set", "Q_q", "z9", "attr", "fixed_points", "_u"];
+
+fn small_formula(rng: &mut Rng, props: &[String], k: u16) -> F {
+    let p = |rng: &mut Rng| F::prop(rng.pick(props));
+    let c = rng.below(8);
+    match if k == 0 && (3..=5).contains(&c) { c - 3 } else { c } {
+        0 => p(rng),
+        1 => F::un("AX", p(rng)),
+        2 => F::un("EF", F::bin("&", p(rng), F::un("~", p(rng)))),
+        3 => F::hyb("!", "x", None, F::un("AX", F::var("x"))),
+        4 => F::hyb("!", "x", None, F::un("AG", F::un("EF", F::var("x")))),
+        5 => F::hyb("3", "x", None, F::hyb("@", "x", None, F::un("EX", p(rng)))),
+        6 => F::bin("EU", p(rng), p(rng)),
+        _ => F::un("AG", F::un("~", p(rng))),
+    }
+}
+
+fn random_plan(rng: &mut Rng, for_save: bool) -> String {
+    if for_save {
+        match rng.below(12) {
+            0 => format!("shortw={}", rng.range(1, 64)),
+            1 => format!("eintr={}", rng.range(1, 5)),
+            2 => format!("eio_w={}", rng.range(1, 60)),
+            3 => format!("enospc={}", rng.range(0, 900)),
+            4 => format!("efbig={}", rng.range(0, 900)),
+            5 => format!("eio_seek={}", rng.range(1, 12)),
+            6 => "eio_close=1".to_string(),
+            7 => format!("open_err=1:{}", rng.pick(&[2, 13, 24, 28, 5, 30])),
+            8 => format!("shortw={},eintr={}", rng.range(1, 16), rng.range(2, 6)),
+            9 => format!("shortw={},enospc={}", rng.range(1, 16), rng.range(0, 900)),
+            _ => String::new(),
+        }
+    } else {
+        match rng.below(9) {
+            0 => format!("shortr={}", rng.range(1, 64)),
+            1 => format!("eintr={}", rng.range(1, 5)),
+            2 => format!("eio_r={}", rng.range(1, 30)),
+            3 => format!("eio_seek={}", rng.range(1, 20)),
+            4 => format!("open_err=1:{}", rng.pick(&[2, 13, 24, 5])),
+            5 => format!("shortr={},eintr={}", rng.range(1, 16), rng.range(2, 6)),
+            _ => String::new(),
+        }
+    }
+}
+
+fn random_pre_no_dir(rng: &mut Rng) -> Pre {
+    match rng.weighted(&[6, 2, 2]) {
+        0 => Pre::Absent,
+        1 => Pre::Torn,
+        _ => Pre::LargerValid,
+    }
+}
+
+fn random_pre(rng: &mut Rng) -> Pre {
+    match rng.weighted(&[6, 2, 2, 1]) {
+        0 => Pre::Absent,
+        1 => Pre::Torn,
+        2 => Pre::LargerValid,
+        _ => Pre::Directory,
+    }
+}
+
+pub fn generate(rng: &Rng, world: &World, tier: &str) -> C16 {
+    let mut r = rng.fork("c16.script");
+    let props = world.var_names();
+    let format = match r.weighted(&[5, 3, 2]) {
+        0 => "aeon",
+        1 => "sbml",
+        _ => "bnet",
+    }
+    .to_string();
+    let cli_form = r.chance(1, 4);
+    let mut sets = Vec::new();
+    let mut formulae = Vec::new();
+    if cli_form {
+        let n = r.range(1, 5);
+        for i in 0..n {
+            let f = small_formula(&mut r, &props, world.k);
+            formulae.push(f.render());
+            sets.push((format!("formula-{i}"), SetSpec::ResultOf(f)));
+        }
+    } else {
+        let n = r.weighted(&[1, 3, 4, 3, 2, 1, 1, 1, 1]);
+        let mut labels: Vec<&str> = LABELS.to_vec();
+        r.shuffle(&mut labels);
+        for l in labels.into_iter().take(n) {
+            let spec = match r.weighted(&[2, 2, 5, 3, if world.k >= 1 { 2 } else { 0 }]) {
+                0 => SetSpec::Empty,
+                1 => SetSpec::Unit,
+                2 => SetSpec::Dnf(r.next_u64() % 1_000_000),
+                3 => SetSpec::ResultOf(small_formula(&mut r, &props, world.k)),
+                _ => SetSpec::Open(F::un(*r.pick(&["AX", "EX", "EF", "~"]), F::var("x"))),
+            };
+            sets.push((l.to_string(), spec));
+        }
+        for _ in 0..r.below(7) {
+            formulae.push(small_formula(&mut r, &props, world.k).render());
+        }
+    }
+    let mut ops = Vec::new();
+    let mut h = rng.fork("c16.hash");
+    let thorough = tier == "thorough";
+    let kind = r.weighted(&[6, 3]);
+    if kind == 0 {
+        // a sampled faulty history
+        let nops = r.range(2, 8);
+        let clean_prefix = r.chance(1, 2);
+        for step in 0..nops {
+            let forced = if clean_prefix && step < 3 { Some(step) } else { None };
+            let op = match forced.map(|s| [0usize, 4, 5][s]).unwrap_or_else(|| r.weighted(&[5, 2, 2, 1, 5, 3])) {
+                0 if forced.is_some() => Op::Save {
+                    plan: if r.chance(1, 2) { String::new() } else { format!("shortw={}", r.range(1, 32)) },
+                    pre: random_pre_no_dir(&mut r),
+                    hash_seed: h.next_u64(),
+                },
+                4 if forced.is_some() => Op::Load {
+                    plan: if r.chance(1, 2) { String::new() } else { format!("shortr={}", r.range(1, 32)) },
+                    hash_seed: h.next_u64(),
+                },
+                0 => Op::Save { plan: random_plan(&mut r, true), pre: random_pre(&mut r), hash_seed: h.next_u64() },
+                1 => Op::CrashSave { kill_w: r.range(1, 70) as u64, let_through: r.range(0, 40) as u64, pre: random_pre(&mut r), hash_seed: h.next_u64() },
+                2 => Op::Truncate { keep: r.range(0, 1500) as u64 },
+                3 => Op::Flip { bit: r.range(0, 12000) as u64 },
+                4 => Op::Load { plan: random_plan(&mut r, false), hash_seed: h.next_u64() },
+                _ => {
+                    let usable: Vec<&(String, SetSpec)> = sets.iter().filter(|(l, s)| !l.contains('-') && !matches!(s, SetSpec::Open(_))).collect();
+                    if usable.is_empty() {
+                        Op::Load { plan: String::new(), hash_seed: h.next_u64() }
+                    } else {
+                        let l = &r.pick(&usable).0;
+                        let f = match r.below(4) {
+                            0 => F::wild(l),
+                            1 => F::un("EX", F::wild(l)),
+                            2 => F::hyb("3", "x", Some(l.as_str()), F::hyb("@", "x", None, F::un("AX", F::var("x")))),
+                            _ => F::bin("&", F::un("~", F::wild(l)), F::un("EF", F::wild(l))),
+                        };
+                        Op::Use { formula: f }
+                    }
+                }
+            };
+            ops.push(op);
+        }
+    } else {
+        // fault-position enumeration on this workload
+        let stride_bytes = if thorough { 1 } else { r.range(3, 17) as u64 };
+        let stride_calls = if thorough { 1 } else { r.range(1, 3) as u64 };
+        let sweeps: Vec<Op> = vec![
+            Op::SweepSave { kind: "eio_w".into(), stride: stride_calls },
+            Op::SweepSave { kind: "enospc".into(), stride: stride_bytes },
+            Op::SweepSave { kind: "efbig".into(), stride: stride_bytes },
+            Op::SweepSave { kind: "kill_w".into(), stride: stride_calls },
+            Op::SweepSave { kind: "eio_seek".into(), stride: 1 },
+            Op::SweepSave { kind: "shortw".into(), stride: 1 },
+            Op::SweepLoad { kind: "eio_r".into(), stride: stride_calls },
+            Op::SweepLoad { kind: "eio_seek".into(), stride: stride_calls },
+            Op::SweepLoad { kind: "shortr".into(), stride: 1 },
+            Op::SweepDamage { kind: "truncate".into(), stride: stride_bytes },
+            Op::SweepDamage { kind: "flip".into(), stride: if thorough { 1 } else { r.range(5, 41) as u64 } },
+        ];
+        if thorough {
+            ops.extend(sweeps);
+        } else {
+            let mut s = sweeps;
+            r.shuffle(&mut s);
+            ops.extend(s.into_iter().take(2));
+        }
+    }
+    C16 { format, sets, formulae, cli_form, nested_path: r.chance(1, 4), ops }
+}
+
+// ---------------------------------------------------------------------------------------------
+
+struct Ctx16 {
+    bn: BooleanNetwork,
+    graph: SymbolicAsyncGraph,
+    k: u16,
+    inmem: BTreeMap<String, Gcv>,
+    model_text: String,
+    path: String,
+    io_dir: String,
+}
+
+fn counters_fired(before: &[u64], after: &[u64]) -> Vec<(String, u64)> {
+    let mut v = Vec::new();
+    for (i, name) in simenv::COUNTER_NAMES.iter().enumerate() {
+        if name.starts_with("fault_") && after[i] > before[i] {
+            v.push((name.to_string(), after[i] - before[i]));
+        }
+    }
+    v
+}
+
+fn network_in_format(world: &World, format: &str) -> Result<(BooleanNetwork, String), String> {
+    let bn0 = BooleanNetwork::try_from(world.model.as_str())?;
+    match format {
+        "sbml" => {
+            let text = bn0.to_sbml(None);
+            let (bn, _) = BooleanNetwork::try_from_sbml(&text)?;
+            Ok((bn, "sbml".to_string()))
+        }
+        "bnet" => match bn0.to_bnet(true) {
+            Ok(text) => match BooleanNetwork::try_from_bnet(&text) {
+                Ok(bn) => Ok((bn, "bnet".to_string())),
+                Err(_) => Ok((bn0, "aeon".to_string())),
+            },
+            Err(_) => Ok((bn0, "aeon".to_string())),
+        },
+        _ => Ok((bn0, "aeon".to_string())),
+    }
+}
+
+fn build_set(graph: &SymbolicAsyncGraph, spec: &SetSpec) -> Result<Gcv, String> {
+    match spec {
+        SetSpec::Empty => Ok(graph.mk_empty_colored_vertices()),
+        SetSpec::Unit => Ok(graph.mk_unit_colored_vertices()),
+        SetSpec::Dnf(seed) => {
+            let mut rng = Rng::new(*seed);
+            let ctx = graph.symbolic_context();
+            let vs = ctx.bdd_variable_set();
+            let mut pool = ctx.state_variables().clone();
+            pool.extend(ctx.parameter_variables().iter().cloned());
+            let mut b = vs.mk_false();
+            for _ in 0..rng.range(1, 4) {
+                let mut c = vs.mk_true();
+                for _ in 0..rng.range(1, 3) {
+                    c = c.and(&vs.mk_literal(*rng.pick(&pool), rng.chance(1, 2)));
+                }
+                b = b.or(&c);
+            }
+            Ok(GraphColoredVertices::new(b, ctx).intersect(graph.unit_colored_vertices()))
+        }
+        SetSpec::ResultOf(f) => mc::model_check_formula_dirty(&f.render(), graph),
+        SetSpec::Open(f) => {
+            if graph.symbolic_context().num_extra_state_variables() == 0 {
+                return Ok(graph.mk_empty_colored_vertices());
+            }
+            let tree = parse_hctl_formula(&f.render())?;
+            let mut ec = EvalContext::new(HashMap::new());
+            let steady = compute_steady_states(graph);
+            let mut cb = |_: &Gcv, _: &str| {};
+            Ok(eval_node(tree, graph, &mut ec, &steady, &mut cb))
+        }
+    }
+}
+
+fn read_entries(path: &str) -> Result<BTreeMap<String, Vec<u8>>, String> {
+    let f = std::fs::File::open(path).map_err(|e| e.to_string())?;
+    let mut z = zip::ZipArchive::new(f).map_err(|e| e.to_string())?;
+    let mut out = BTreeMap::new();
+    for i in 0..z.len() {
+        let mut e = z.by_index(i).map_err(|e| e.to_string())?;
+        let mut buf = Vec::new();
+        e.read_to_end(&mut buf).map_err(|e| e.to_string())?;
+        if out.insert(e.name().to_string(), buf).is_some() {
+            return Err(format!("duplicate entry {}", e.name()));
+        }
+    }
+    Ok(out)
+}
+
+fn context_names(g: &SymbolicAsyncGraph) -> Vec<String> {
+    let vs = g.symbolic_context().bdd_variable_set();
+    vs.variables().into_iter().map(|v| vs.name_of(v)).collect()
+}
+
+impl Ctx16 {
+    fn apply_pre(&self, pre: &Pre, rep: &mut Report) {
+        let _ = std::fs::remove_file(&self.path);
+        let _ = std::fs::remove_dir_all(&self.path);
+        match pre {
+            Pre::Absent => {}
+            Pre::Torn => {
+                let _ = std::fs::create_dir_all(std::path::Path::new(&self.path).parent().unwrap());
+                let _ = std::fs::write(&self.path, b"PK\x03\x04\x14\x00\x00\x00\x08\x00torn-archive-from-a-killed-run");
+                rep.probe("pre_torn_file", 1);
+            }
+            Pre::LargerValid => {
+                let _ = std::fs::create_dir_all(std::path::Path::new(&self.path).parent().unwrap());
+                let mut big: HashMap<String, Gcv> = HashMap::new();
+                for i in 0..12 {
+                    big.insert(format!("stale_{i}"), self.graph.mk_unit_colored_vertices());
+                }
+                let lines: Vec<String> = (0..40).map(|i| format!("stale formula line {i} ........................................")).collect();
+                let _ = build_result_archive(big, &self.path, &format!("{}\n# stale\n", self.model_text.repeat(3)), lines);
+                rep.probe("pre_larger_valid_archive", 1);
+            }
+            Pre::Directory => {
+                let _ = std::fs::create_dir_all(&self.path);
+                rep.probe("pre_directory_at_path", 1);
+            }
+        }
+    }
+
+    /// Run build_result_archive in a fresh thread under `plan`. Returns outcome and fired faults.
+    fn save(&self, plan: &str, hash_seed: u64, formulae: &[String]) -> (Outcome<()>, Vec<(String, u64)>, String) {
+        let before = simenv::counters();
+        let trace = simenv::Trace::start(1 << 16);
+        simenv::io(&self.io_dir, plan);
+        let r = isolated(hash_seed, || {
+            // the map is built inside the thread: its iteration order is a function of the hash seed
+            let mut m: HashMap<String, Gcv> = HashMap::new();
+            for (l, s) in &self.inmem {
+                m.insert(l.clone(), s.clone());
+            }
+            build_result_archive(m, &self.path, &self.model_text, formulae.to_vec()).map_err(|e| e.to_string())
+        });
+        simenv::io(&self.io_dir, "");
+        let tr = trace.stop();
+        let after = simenv::counters();
+        (r, counters_fired(&before, &after), tr)
+    }
+
+    /// Oracle 1: everything the statement says about an acknowledged archive.
+    fn verify_acknowledged(&self, formulae: &[String], cli_form: bool, rep: &mut Report, how: &str) {
+        let entries = match read_entries(&self.path) {
+            Ok(e) => e,
+            Err(e) => {
+                rep.violate("acknowledged_save_unreadable", format!("{how}: Save returned Ok but the archive cannot be read back: {e}"));
+                return;
+            }
+        };
+        let mut expected: Vec<String> = self.inmem.keys().map(|l| format!("{l}.bdd")).collect();
+        expected.push("model.aeon".to_string());
+        expected.push("formulae.txt".to_string());
+        expected.sort();
+        let got: Vec<String> = entries.keys().cloned().collect();
+        if got != expected {
+            rep.violate("archive_entries", format!("{how}: entries {got:?}, expected {expected:?}"));
+            return;
+        }
+        let ftxt = String::from_utf8_lossy(&entries["formulae.txt"]).to_string();
+        let lines: Vec<&str> = ftxt.lines().collect();
+        if lines.len() != formulae.len() || lines.iter().zip(formulae.iter()).any(|(a, b)| a != b) {
+            rep.violate("archive_formula_list", format!("{how}: formulae.txt holds {lines:?}, written {formulae:?}"));
+            return;
+        }
+        // restart: rebuild everything from the archived model
+        let model = String::from_utf8_lossy(&entries["model.aeon"]).to_string();
+        let bn2 = match BooleanNetwork::try_from(model.as_str()) {
+            Ok(b) => b,
+            Err(e) => {
+                rep.violate("archived_model_unreadable", format!("{how}: archived model does not parse: {e}"));
+                return;
+            }
+        };
+        let g2 = match get_extended_symbolic_graph(&bn2, self.k) {
+            Ok(g) => g,
+            Err(e) => {
+                rep.violate("archived_model_unreadable", format!("{how}: graph of the archived model does not build: {e}"));
+                return;
+            }
+        };
+        if context_names(&g2) != context_names(&self.graph) {
+            rep.violate(
+                "context_differs_after_rebuild",
+                format!("{how}: symbolic variables after rebuild {:?}, before {:?}", context_names(&g2), context_names(&self.graph)),
+            );
+            return;
+        }
+        let loaded = isolated(7, || load_bdd_bundle(&self.path, g2.symbolic_context()));
+        rep.probe("restart_and_reload", 1);
+        match loaded {
+            Outcome::Ok(m) => {
+                let mut ls: Vec<&String> = m.keys().collect();
+                ls.sort();
+                let want: Vec<&String> = self.inmem.keys().collect();
+                if ls != want {
+                    rep.violate("reload_labels", format!("{how}: reloaded labels {ls:?}, written {want:?}"));
+                    return;
+                }
+                for (l, s) in &self.inmem {
+                    if !evalx::same_set(&m[l], s) {
+                        rep.violate("reload_set_differs", format!("{how}: label {l}: reloaded {} vs written {} elements", m[l].approx_cardinality(), s.approx_cardinality()));
+                        return;
+                    }
+                }
+                if cli_form {
+                    // entry i corresponds to line i of the archived formula list
+                    for (i, line) in lines.iter().enumerate() {
+                        let l = format!("formula-{i}");
+                        if let (Some(s), Ok(r)) = (m.get(&l), mc::model_check_formula_dirty(line, &g2)) {
+                            if !evalx::same_set(s, &r) {
+                                rep.violate("entry_i_is_not_line_i", format!("{how}: entry {l} is not the result of archived line {i} `{line}`"));
+                                return;
+                            }
+                        }
+                    }
+                }
+            }
+            other => rep.violate("acknowledged_save_not_reloadable", format!("{how}: Save returned Ok, fault-free reload {}", other.describe())),
+        }
+    }
+
+    fn load(&self, plan: &str, hash_seed: u64) -> (Outcome<HashMap<String, Gcv>>, Vec<(String, u64)>) {
+        // restart: a fresh graph object (from the same network; the archived model is checked by oracle 1)
+        let g2 = get_extended_symbolic_graph(&self.bn, self.k).expect("graph");
+        let before = simenv::counters();
+        simenv::io(&self.io_dir, plan);
+        let r = isolated(hash_seed, || load_bdd_bundle(&self.path, g2.symbolic_context()));
+        simenv::io(&self.io_dir, "");
+        let after = simenv::counters();
+        (r, counters_fired(&before, &after))
+    }
+
+    /// Oracle 3 for a Load result. `pristine`: the archive is acknowledged and undamaged and no
+    /// fault fired. `names_trusted`: entry names cannot have been altered (no bit flips).
+    fn judge_load(&self, r: &Outcome<HashMap<String, Gcv>>, pristine: bool, names_trusted: bool, rep: &mut Report, how: &str) -> bool {
+        match r {
+            Outcome::Ok(m) => {
+                for (l, s) in m {
+                    match self.inmem.get(l) {
+                        Some(w) => {
+                            if !evalx::same_set(s, w) {
+                                rep.violate("reload_returned_wrong_data", format!("{how}: label {l}: returned {} vs written {} elements", s.approx_cardinality(), w.approx_cardinality()));
+                                return false;
+                            }
+                        }
+                        None => {
+                            if names_trusted {
+                                rep.violate("reload_returned_wrong_data", format!("{how}: returned label {l} that was never written"));
+                                return false;
+                            }
+                        }
+                    }
+                }
+                if pristine && m.len() != self.inmem.len() {
+                    rep.violate("clean_reload_differs", format!("{how}: {} labels reloaded, {} written", m.len(), self.inmem.len()));
+                    return false;
+                }
+                m.len() == self.inmem.len()
+            }
+            other => {
+                if pristine {
+                    rep.violate("clean_reload_differs", format!("{how}: acknowledged undamaged archive, no fault, Load {}", other.describe()));
+                }
+                false
+            }
+        }
+    }
+}
+
+fn pinned(sc: &C16, ops: Vec<Op>) -> Value {
+    let mut s = sc.clone();
+    s.ops = ops;
+    s.to_json()
+}
+
+pub fn check(world: &World, sc: &C16, sandbox: &str) -> Report {
+    let mut rep = Report::default();
+    let (bn, fmt) = match network_in_format(world, &sc.format) {
+        Ok(x) => x,
+        Err(e) => {
+            rep.skipped = Some(format!("network does not convert to {}: {e}", sc.format));
+            return rep;
+        }
+    };
+    let graph = match get_extended_symbolic_graph(&bn, world.k) {
+        Ok(g) => g,
+        Err(e) => {
+            rep.skipped = Some(format!("graph does not build: {e}"));
+            return rep;
+        }
+    };
+    rep.probe(&format!("format_{fmt}"), 1);
+    let mut inmem = BTreeMap::new();
+    for (l, spec) in &sc.sets {
+        match isolated(11, || build_set(&graph, spec)) {
+            Outcome::Ok(s) => {
+                inmem.insert(l.clone(), s);
+            }
+            other => {
+                rep.skipped = Some(format!("set {l} does not build: {}", other.describe()));
+                return rep;
+            }
+        }
+    }
+    let io_dir = format!("{sandbox}/io");
+    let _ = std::fs::remove_dir_all(&io_dir);
+    let _ = std::fs::create_dir_all(&io_dir);
+    let path = if sc.nested_path { format!("{io_dir}/new/dir/results.zip") } else { format!("{io_dir}/results.zip") };
+    let cx = Ctx16 { model_text: bn.to_string(), bn, graph, k: world.k, inmem, path, io_dir };
+    rep.probe("labels", cx.inmem.len() as u64);
+    rep.probe("empty_sets", cx.inmem.values().filter(|s| s.is_empty()).count() as u64);
+    rep.probe("open_sets", sc.sets.iter().filter(|(_, s)| matches!(s, SetSpec::Open(_))).count() as u64);
+
+    // session state
+    #[derive(PartialEq)]
+    enum Disk {
+        Absent,
+        Good,
+        Suspect,
+        Flipped,
+        /// a failed Save may have left the *previous* valid archive (other labels) in place
+        Stale,
+    }
+    let mut disk = Disk::Absent;
+    let mut loaded: Option<HashMap<String, Gcv>> = None;
+    let mut sig = fnv1a(format!("{}{}{}", sc.sets.len(), sc.formulae.len(), fmt).as_bytes());
+
+    let mut ops = sc.ops.clone();
+    // bounded liveness: the history always ends with a fault-free Save + Load
+    ops.push(Op::Save { plan: String::new(), pre: Pre::Absent, hash_seed: 3 });
+    ops.push(Op::Load { plan: String::new(), hash_seed: 4 });
+    let nops = ops.len();
+
+    for (oi, op) in ops.iter().enumerate() {
+        if rep.violation.is_some() {
+            break;
+        }
+        let is_final = oi + 2 >= nops;
+        match op {
+            Op::Save { plan, pre, hash_seed } => {
+                let pre = if is_final && disk != Disk::Absent { None } else { Some(pre) };
+                if let Some(p) = pre {
+                    cx.apply_pre(p, &mut rep);
+                }
+                let dir_in_the_way = std::path::Path::new(&cx.path).is_dir();
+                let (r, fired, trace) = cx.save(plan, *hash_seed, &sc.formulae);
+                rep.event(format!("save [{plan}] {} fired={fired:?} trace={:016x}", r.describe(), fnv1a(trace.as_bytes())));
+                rep.probe("saves", 1);
+                for (n, c) in &fired {
+                    rep.probe(n, *c);
+                }
+                sig ^= fnv1a(format!("save{plan}{}", r.kind()).as_bytes()).rotate_left(oi as u32);
+                let how = format!("op {oi} Save[{plan}]{}", if is_final { " (final fault-free save)" } else { "" });
+                match r {
+                    Outcome::Ok(()) => {
+                        if !fired.is_empty() {
+                            rep.probe("acknowledged_saves_under_fault", 1);
+                        }
+                        cx.verify_acknowledged(&sc.formulae, sc.cli_form, &mut rep, &how);
+                        disk = Disk::Good;
+                    }
+                    Outcome::Err(e) => {
+                        if fired.is_empty() && !dir_in_the_way {
+                            rep.violate("save_failed_without_fault", format!("{how}: Err({e}) although no fault was injected"));
+                        } else {
+                            rep.probe("saves_failed_under_fault", 1);
+                        }
+                        disk = if pre == Some(&Pre::LargerValid) { Disk::Stale } else { Disk::Suspect };
+                    }
+                    Outcome::Panic(p) => {
+                        if fired.is_empty() && !dir_in_the_way {
+                            rep.violate("save_failed_without_fault", format!("{how}: panicked although no fault was injected: {p}"));
+                        } else {
+                            rep.probe("saves_panicked_under_fault", 1);
+                        }
+                        disk = if pre == Some(&Pre::LargerValid) { Disk::Stale } else { Disk::Suspect };
+                    }
+                }
+                loaded = None;
+            }
+            Op::CrashSave { kill_w, let_through, pre, hash_seed } => {
+                cx.apply_pre(pre, &mut rep);
+                let code = crash_save_child(&cx, sc, sandbox, *kill_w, *let_through, *hash_seed);
+                rep.event(format!("crash_save kill_w={kill_w}:{let_through} exit={code:?}"));
+                rep.probe("crash_saves", 1);
+                sig ^= fnv1a(format!("crash{kill_w}{code:?}").as_bytes()).rotate_left(oi as u32);
+                match code {
+                    Some(137) => {
+                        rep.probe("fault_kill", 1);
+                        disk = Disk::Suspect;
+                    }
+                    Some(0) => {
+                        // the kill point lay beyond the last write: an acknowledged save by a child
+                        cx.verify_acknowledged(&sc.formulae, sc.cli_form, &mut rep, &format!("op {oi} Save in child process (kill point beyond last write)"));
+                        disk = Disk::Good;
+                    }
+                    Some(3) => {
+                        // the child reported Err (e.g. a directory at the path)
+                        disk = Disk::Suspect;
+                    }
+                    other => {
+                        rep.skipped = Some(format!("crash child exited with {other:?}"));
+                        return rep;
+                    }
+                }
+                loaded = None;
+            }
+            Op::Truncate { keep } => {
+                if let Ok(bytes) = std::fs::read(&cx.path) {
+                    if (*keep as usize) < bytes.len() {
+                        let _ = std::fs::write(&cx.path, &bytes[..*keep as usize]);
+                        rep.probe("damage_truncations", 1);
+                        if disk == Disk::Good {
+                            disk = Disk::Suspect;
+                        }
+                        sig ^= 0x77;
+                    }
+                }
+                rep.event(format!("truncate {keep}"));
+            }
+            Op::Flip { bit } => {
+                if let Ok(mut bytes) = std::fs::read(&cx.path) {
+                    if !bytes.is_empty() {
+                        let b = (*bit as usize) % (bytes.len() * 8);
+                        bytes[b / 8] ^= 1 << (b % 8);
+                        let _ = std::fs::write(&cx.path, &bytes);
+                        rep.probe("damage_bit_flips", 1);
+                        disk = Disk::Flipped;
+                        sig ^= 0x99;
+                    }
+                }
+                rep.event(format!("flip {bit}"));
+            }
+            Op::Load { plan, hash_seed } => {
+                let (r, fired) = cx.load(plan, *hash_seed);
+                rep.event(format!(
+                    "load [{plan}] {} fired={fired:?}",
+                    match &r {
+                        Outcome::Ok(m) => {
+                            let mut v: Vec<String> = m.iter().map(|(l, s)| format!("{l}={}", evalx::set_sig(s))).collect();
+                            v.sort();
+                            v.join(",")
+                        }
+                        o => o.describe(),
+                    }
+                ));
+                rep.probe("loads", 1);
+                for (n, c) in &fired {
+                    rep.probe(n, *c);
+                }
+                sig ^= fnv1a(format!("load{plan}{}", r.kind()).as_bytes()).rotate_left(oi as u32);
+                let pristine = disk == Disk::Good && fired.is_empty();
+                if disk != Disk::Good {
+                    rep.probe("loads_of_suspect_archive", 1);
+                    if matches!(r, Outcome::Panic(_)) {
+                        rep.probe("load_panics_on_damaged_archive", 1);
+                    }
+                }
+                let how = format!("op {oi} Load[{plan}]{}", if is_final { " (final fault-free load)" } else { "" });
+                let complete = if disk == Disk::Stale {
+                    // the previous run's archive may legitimately still be there: nothing to judge
+                    rep.probe("loads_of_stale_archive", 1);
+                    false
+                } else if disk == Disk::Flipped {
+                    // no verdict on bit-flipped archives: entry names carry no checksum, so a flipped
+                    // name can collide with another label and nothing can detect it
+                    rep.probe(if matches!(r, Outcome::Ok(_)) { "flipped_archive_loaded_ok" } else { "flipped_archive_rejected" }, 1);
+                    false
+                } else {
+                    cx.judge_load(&r, pristine, true, &mut rep, &how)
+                };
+                loaded = if complete { r.ok().cloned() } else { None };
+            }
+            Op::Use { formula } => {
+                if let Some(m) = &loaded {
+                    let text = formula.render();
+                    let inmem: HashMap<String, Gcv> = cx.inmem.iter().map(|(l, s)| (l.clone(), s.clone())).collect();
+                    let a = isolated(21, || mc::model_check_extended_formula_dirty(&text, &cx.graph, &inmem));
+                    let b = isolated(22, || mc::model_check_extended_formula_dirty(&text, &cx.graph, m));
+                    rep.event(format!("use {text} {} {}", a.describe(), b.describe()));
+                    rep.probe("loaded_sets_used_as_context", 1);
+                    match (&a, &b) {
+                        (Outcome::Ok(x), Outcome::Ok(y)) => {
+                            if !evalx::same_set(x, y) {
+                                rep.violate("loaded_context_differs", format!("op {oi} `{text}`: with loaded sets {} vs with in-memory sets {} elements", y.approx_cardinality(), x.approx_cardinality()));
+                            }
+                        }
+                        (Outcome::Ok(_), other) => rep.violate("loaded_context_differs", format!("op {oi} `{text}`: in-memory sets ok, loaded sets {}", other.describe())),
+                        _ => {}
+                    }
+                }
+            }
+            Op::SweepSave { kind, stride } => {
+                // measure the fault-free save first
+                cx.apply_pre(&Pre::Absent, &mut rep);
+                let (r0, _, trace) = cx.save("", 5, &sc.formulae);
+                if !matches!(r0, Outcome::Ok(())) {
+                    rep.violate("save_failed_without_fault", format!("op {oi}: fault-free save {}", r0.describe()));
+                    break;
+                }
+                let writes = trace.lines().filter(|l| l.starts_with("write ")).count() as u64;
+                let seeks = trace.lines().filter(|l| l.starts_with("seek ")).count() as u64;
+                let bytes = std::fs::metadata(&cx.path).map(|m| m.len()).unwrap_or(0);
+                let positions: Vec<String> = match kind.as_str() {
+                    "eio_w" => (1..=writes).step_by(*stride as usize).map(|j| format!("eio_w={j}")).collect(),
+                    "eio_seek" => (1..=seeks).map(|j| format!("eio_seek={j}")).collect(),
+                    "enospc" => (0..=bytes + 8).step_by(*stride as usize).map(|n| format!("enospc={n}")).collect(),
+                    "efbig" => (0..=bytes + 8).step_by(*stride as usize).map(|n| format!("efbig={n}")).collect(),
+                    "shortw" => [1u64, 2, 3, 7, 16, 64].iter().map(|n| format!("shortw={n}")).chain((1..=4).map(|k| format!("eintr={k}"))).collect(),
+                    "kill_w" => (1..=writes + 1).step_by(*stride as usize).flat_map(|j| vec![(j, 0u64), (j, 1), (j, 1 << 20)]).map(|(j, f)| format!("kill_w={j}:{f}")).collect(),
+                    _ => Vec::new(),
+                };
+                rep.probe(&format!("sweep_save_{kind}_positions"), positions.len() as u64);
+                sig ^= fnv1a(format!("sweepsave{kind}{writes}{bytes}").as_bytes());
+                for plan in positions {
+                    if let Some(rest) = plan.strip_prefix("kill_w=") {
+                        let mut it = rest.split(':');
+                        let j: u64 = it.next().unwrap().parse().unwrap();
+                        let f: u64 = it.next().unwrap().parse().unwrap();
+                        cx.apply_pre(&Pre::Absent, &mut rep);
+                        let code = crash_save_child(&cx, sc, sandbox, j, f, 5);
+                        rep.probe("crash_saves", 1);
+                        let explicit = vec![Op::CrashSave { kill_w: j, let_through: f, pre: Pre::Absent, hash_seed: 5 }, Op::Load { plan: String::new(), hash_seed: 6 }];
+                        match code {
+                            Some(137) => {
+                                rep.probe("fault_kill", 1);
+                                let (r, _) = cx.load("", 6);
+                                rep.probe("loads_of_suspect_archive", 1);
+                                cx.judge_load(&r, false, true, &mut rep, &format!("op {oi} sweep: Load after crash at {plan}"));
+                            }
+                            Some(0) => cx.verify_acknowledged(&sc.formulae, sc.cli_form, &mut rep, &format!("op {oi} sweep: Save in child ({plan} beyond last write)")),
+                            _ => {}
+                        }
+                        if rep.violation.is_some() {
+                            rep.pinned = Some(pinned(sc, explicit));
+                            break;
+                        }
+                        continue;
+                    }
+                    cx.apply_pre(&Pre::Absent, &mut rep);
+                    let (r, fired, _) = cx.save(&plan, 5, &sc.formulae);
+                    rep.probe("saves", 1);
+                    for (n, c) in &fired {
+                        rep.probe(n, *c);
+                    }
+                    let how = format!("op {oi} sweep: Save[{plan}]");
+                    match &r {
+                        Outcome::Ok(()) => {
+                            if !fired.is_empty() {
+                                rep.probe("acknowledged_saves_under_fault", 1);
+                            }
+                            cx.verify_acknowledged(&sc.formulae, sc.cli_form, &mut rep, &how);
+                        }
+                        Outcome::Err(e) => {
+                            if fired.is_empty() {
+                                rep.violate("save_failed_without_fault", format!("{how}: Err({e}) although no fault fired"));
+                            } else {
+                                rep.probe("saves_failed_under_fault", 1);
+                                // whatever is on disk must not be returned as wrong data
+                                let (lr, _) = cx.load("", 6);
+                                rep.probe("loads_of_suspect_archive", 1);
+                                cx.judge_load(&lr, false, true, &mut rep, &format!("{how} then Load"));
+                            }
+                        }
+                        Outcome::Panic(_) => rep.probe("saves_panicked_under_fault", 1),
+                    }
+                    if rep.violation.is_some() {
+                        rep.pinned = Some(pinned(sc, vec![Op::Save { plan: plan.clone(), pre: Pre::Absent, hash_seed: 5 }, Op::Load { plan: String::new(), hash_seed: 6 }]));
+                        break;
+                    }
+                }
+                disk = Disk::Suspect;
+                loaded = None;
+            }
+            Op::SweepLoad { kind, stride } => {
+                cx.apply_pre(&Pre::Absent, &mut rep);
+                let (r0, _, _) = cx.save("", 5, &sc.formulae);
+                if !matches!(r0, Outcome::Ok(())) {
+                    rep.violate("save_failed_without_fault", format!("op {oi}: fault-free save {}", r0.describe()));
+                    break;
+                }
+                // measure a fault-free load
+                let before = simenv::counters();
+                let (l0, _) = cx.load("", 6);
+                let after = simenv::counters();
+                if !cx.judge_load(&l0, true, true, &mut rep, &format!("op {oi} sweep: fault-free Load")) {
+                    if rep.violation.is_some() {
+                        rep.pinned = Some(pinned(sc, vec![Op::Save { plan: String::new(), pre: Pre::Absent, hash_seed: 5 }, Op::Load { plan: String::new(), hash_seed: 6 }]));
+                    }
+                    break;
+                }
+                let reads = after[3] - before[3];
+                let seeks = after[5] - before[5];
+                let positions: Vec<String> = match kind.as_str() {
+                    "eio_r" => (1..=reads).step_by(*stride as usize).map(|j| format!("eio_r={j}")).collect(),
+                    "eio_seek" => (1..=seeks).step_by(*stride as usize).map(|j| format!("eio_seek={j}")).collect(),
+                    "shortr" => [1u64, 2, 3, 7, 16, 64].iter().map(|n| format!("shortr={n}")).chain((1..=4).map(|k| format!("eintr={k}"))).chain([2, 13, 24, 5].iter().map(|e| format!("open_err=1:{e}"))).collect(),
+                    _ => Vec::new(),
+                };
+                rep.probe(&format!("sweep_load_{kind}_positions"), positions.len() as u64);
+                sig ^= fnv1a(format!("sweepload{kind}{reads}").as_bytes());
+                for plan in positions {
+                    let (r, fired) = cx.load(&plan, 6);
+                    rep.probe("loads", 1);
+                    for (n, c) in &fired {
+                        rep.probe(n, *c);
+                    }
+                    cx.judge_load(&r, fired.is_empty(), true, &mut rep, &format!("op {oi} sweep: Load[{plan}]"));
+                    if rep.violation.is_some() {
+                        rep.pinned = Some(pinned(sc, vec![Op::Save { plan: String::new(), pre: Pre::Absent, hash_seed: 5 }, Op::Load { plan: plan.clone(), hash_seed: 6 }]));
+                        break;
+                    }
+                }
+                disk = Disk::Good;
+                loaded = None;
+            }
+            Op::SweepDamage { kind, stride } => {
+                cx.apply_pre(&Pre::Absent, &mut rep);
+                let (r0, _, _) = cx.save("", 5, &sc.formulae);
+                if !matches!(r0, Outcome::Ok(())) {
+                    rep.violate("save_failed_without_fault", format!("op {oi}: fault-free save {}", r0.describe()));
+                    break;
+                }
+                let good = std::fs::read(&cx.path).unwrap_or_default();
+                let n = good.len() as u64;
+                sig ^= fnv1a(format!("sweepdamage{kind}{n}").as_bytes());
+                if kind == "truncate" {
+                    let mut count = 0;
+                    for keep in (0..n).step_by(*stride as usize) {
+                        let _ = std::fs::write(&cx.path, &good[..keep as usize]);
+                        let (r, _) = cx.load("", 6);
+                        count += 1;
+                        if matches!(r, Outcome::Panic(_)) {
+                            rep.probe("load_panics_on_damaged_archive", 1);
+                        }
+                        if matches!(r, Outcome::Ok(_)) {
+                            rep.probe("torn_archive_loaded_ok", 1);
+                        }
+                        cx.judge_load(&r, false, true, &mut rep, &format!("op {oi} sweep: Load of archive truncated to {keep} of {n} bytes"));
+                        if rep.violation.is_some() {
+                            rep.pinned = Some(pinned(sc, vec![Op::Save { plan: String::new(), pre: Pre::Absent, hash_seed: 5 }, Op::Truncate { keep }, Op::Load { plan: String::new(), hash_seed: 6 }]));
+                            break;
+                        }
+                    }
+                    rep.probe("damage_truncations", count);
+                    rep.probe("loads_of_suspect_archive", count);
+                } else {
+                    let mut count = 0;
+                    for bit in (0..n * 8).step_by(*stride as usize) {
+                        let mut b = good.clone();
+                        b[(bit / 8) as usize] ^= 1 << (bit % 8);
+                        let _ = std::fs::write(&cx.path, &b);
+                        let (r, _) = cx.load("", 6);
+                        count += 1;
+                        if matches!(r, Outcome::Panic(_)) {
+                            rep.probe("load_panics_on_damaged_archive", 1);
+                        }
+                        // reach probe only (see Op::Load): no verdict on bit-flipped archives
+                        rep.probe(if matches!(r, Outcome::Ok(_)) { "flipped_archive_loaded_ok" } else { "flipped_archive_rejected" }, 1);
+                    }
+                    rep.probe("damage_bit_flips", count);
+                    rep.probe("loads_of_suspect_archive", count);
+                }
+                let _ = std::fs::write(&cx.path, &good);
+                disk = Disk::Good;
+                loaded = None;
+            }
+        }
+    }
+    let _ = std::fs::remove_dir_all(&cx.io_dir);
+    rep.signature = Some(sig);
+    rep
+}
+
+/// Execute the Save in a child process that is killed inside its `kill_w`-th write.
+fn crash_save_child(cx: &Ctx16, sc: &C16, sandbox: &str, kill_w: u64, let_through: u64, hash_seed: u64) -> Option<i32> {
+    let spec = json!({
+        "model": cx.model_text,
+        "k": cx.k,
+        "sets": cx.inmem.iter().map(|(l, s)| (l.clone(), s.as_bdd().to_string())).collect::<BTreeMap<_, _>>(),
+        "formulae": sc.formulae,
+        "path": cx.path,
+    });
+    let spec_path = format!("{sandbox}/crash-spec.json");
+    if std::fs::write(&spec_path, spec.to_string()).is_err() {
+        return None;
+    }
+    let exe = std::env::current_exe().ok()?;
+    let out = std::process::Command::new(exe)
+        .arg("save-child")
+        .arg(&spec_path)
+        .env("VERIF_RAND", hash_seed.to_string())
+        .env("VERIF_CLOCK", crate::CLOCK_SCRIPT)
+        .env("VERIF_IO_PREFIX", &cx.io_dir)
+        .env("VERIF_IO_PLAN", format!("kill_w={kill_w}:{let_through}"))
+        .stdout(std::process::Stdio::null())
+        .stderr(std::process::Stdio::null())
+        .status()
+        .ok()?;
+    out.code()
+}
+
+/// Entry point of the crash child (`hctl-sim save-child <spec>`): runs in the main thread, hash
+/// keys / clock / fault plan come from the environment.
+pub fn save_child_main(spec_path: &str) -> i32 {
+    let text = match std::fs::read_to_string(spec_path) {
+        Ok(t) => t,
+        Err(_) => return 2,
+    };
+    let v: Value = match serde_json::from_str(&text) {
+        Ok(v) => v,
+        Err(_) => return 2,
+    };
+    let bn = match BooleanNetwork::try_from(v["model"].as_str().unwrap_or("")) {
+        Ok(b) => b,
+        Err(_) => return 2,
+    };
+    let g = match get_extended_symbolic_graph(&bn, v["k"].as_u64().unwrap_or(0) as u16) {
+        Ok(g) => g,
+        Err(_) => return 2,
+    };
+    let mut m: HashMap<String, Gcv> = HashMap::new();
+    if let Some(sets) = v["sets"].as_object() {
+        for (l, s) in sets {
+            m.insert(l.clone(), GraphColoredVertices::new(biodivine_lib_bdd::Bdd::from_string(s.as_str().unwrap_or("")), g.symbolic_context()));
+        }
+    }
+    let formulae: Vec<String> = v["formulae"].as_array().map(|a| a.iter().map(|s| s.as_str().unwrap_or("").to_string()).collect()).unwrap_or_default();
+    match build_result_archive(m, v["path"].as_str().unwrap_or(""), v["model"].as_str().unwrap_or(""), formulae) {
+        Ok(()) => 0,
+        Err(_) => 3,
+    }
+}
+
+pub fn shrinks(sc: &C16) -> Vec<C16> {
+    let mut out = Vec::new();
+    for i in 0..sc.ops.len() {
+        let mut s = sc.clone();
+        s.ops.remove(i);
+        out.push(s);
+    }
+    if sc.nested_path {
+        let mut s = sc.clone();
+        s.nested_path = false;
+        out.push(s);
+    }
+    if sc.format != "aeon" {
+        let mut s = sc.clone();
+        s.format = "aeon".to_string();
+        out.push(s);
+    }
+    if !sc.cli_form {
+        for i in 0..sc.sets.len() {
+            let mut s = sc.clone();
+            s.sets.remove(i);
+            out.push(s);
+        }
+        for i in 0..sc.formulae.len() {
+            let mut s = sc.clone();
+            s.formulae.remove(i);
+            out.push(s);
+        }
+    } else if sc.sets.len() > 1 {
+        let mut s = sc.clone();
+        s.sets.pop();
+        s.formulae.pop();
+        out.push(s);
+    }
+    for i in 0..sc.sets.len() {
+        if !sc.cli_form && !matches!(sc.sets[i].1, SetSpec::Empty | SetSpec::Unit) {
+            for repl in [SetSpec::Empty, SetSpec::Unit] {
+                let mut s = sc.clone();
+                s.sets[i].1 = repl;
+                out.push(s);
+            }
+        }
+    }
+    for (i, op) in sc.ops.iter().enumerate() {
+        match op {
+            Op::Save { plan, pre, hash_seed } => {
+                if *pre != Pre::Absent {
+                    let mut s = sc.clone();
+                    s.ops[i] = Op::Save { plan: plan.clone(), pre: Pre::Absent, hash_seed: *hash_seed };
+                    out.push(s);
+                }
+                if plan.contains(',') {
+                    for part in plan.split(',') {
+                        let mut s = sc.clone();
+                        s.ops[i] = Op::Save { plan: part.to_string(), pre: pre.clone(), hash_seed: *hash_seed };
+                        out.push(s);
+                    }
+                }
+                if !plan.is_empty() {
+                    let mut s = sc.clone();
+                    s.ops[i] = Op::Save { plan: String::new(), pre: pre.clone(), hash_seed: *hash_seed };
+                    out.push(s);
+                }
+            }
+            Op::Load { plan, hash_seed } if !plan.is_empty() => {
+                let mut s = sc.clone();
+                s.ops[i] = Op::Load { plan: String::new(), hash_seed: *hash_seed };
+                out.push(s);
+            }
+            Op::CrashSave { kill_w, let_through, pre, hash_seed } => {
+                if *kill_w > 1 {
+                    let mut s = sc.clone();
+                    s.ops[i] = Op::CrashSave { kill_w: kill_w - 1, let_through: *let_through, pre: pre.clone(), hash_seed: *hash_seed };
+                    out.push(s);
+                }
+                if *pre != Pre::Absent {
+                    let mut s = sc.clone();
+                    s.ops[i] = Op::CrashSave { kill_w: *kill_w, let_through: *let_through, pre: Pre::Absent, hash_seed: *hash_seed };
+                    out.push(s);
+                }
+            }
+            _ => {}
+        }
+    }
+    out
+}
